@@ -258,3 +258,10 @@ Definition main_nonint_source : fprog :=
 Definition main_nonint_witness : fcprog :=
   mkfcprog [mkfdata "Bar" [] [mkfctor "B" []]] []
     [mkfdef "main" [] (FDecl "Bar" []) (FCtor "B" [] (Some (FDecl "Bar" [])))].
+
+(* the field types of all (compiled) xtors are declared: with prog_tyguard, the source-level guard of the
+   composition C12_pipeline_wt_source (it gives decls_ok of the focused program; the checker's output is not
+   closed under the types it mentions, C15, so this is not implied by acceptance) *)
+Definition xtor_tys_guard (p : fcprog) : bool :=
+  let D := cdata_of p in let C := ccodata_of p in
+  forallb (fun t => forallb (fun x => forallb (fun b => ty_ok D C (cbty b)) (cxargs x)) (ctxtors t)) (D ++ C).
